@@ -1,5 +1,6 @@
 import AkVerif.Gen.C04
 import AkVerif.Lemmas.SrcPos
+import AkVerif.Lemmas.SrcPosCompose
 /-!
 # C04 — source positions are exact and cover the text
 
@@ -108,21 +109,21 @@ theorem orig_text_exact (inp : Input) (i j a b : Nat) (li lj : List Char)
   rw [bases_std, ← joinNl_origLines]
   exact getOrigText_flat hi hj ha hb hle
 
-/-- Node spans. `L` = positions of the non-skipped tokens, the tree is laid over them from token `k`
-on and does not swallow `$END$`. Then for the tree and every node below it (`all`, pre-order), with
-`[lo, hi)` the tokens under the node: a node with at least one token spans from the start of its first
-token to the end of its last token; a node that matched nothing has the empty span at the start of
-the following token (`Good`). -/
+/-- Node spans. `L` = positions of the tokens that survive the skip filter `q` (any filter; the driver's
+`dropSkipped skip` is `filter (fun t => t.name ∉ skip)`), the tree is laid over them from token `k` on and
+does not swallow `$END$`. Then for the tree and every node below it (`all`, pre-order), with `[lo, hi)` the
+tokens under the node: a node with at least one token spans from the start of its first token to the end of
+its last token; a node that matched nothing has the empty span at the start of the following token (`Good`). -/
 theorem node_span (cfg : Cfg) (re : Re) (lines : List (List Char)) (toks : List Tok)
-    (h : tokenize B cfg re lines = .ok toks) (skip : List Nat) (t : Tree) (k : Nat)
+    (h : tokenize B cfg re lines = .ok toks) (q : Tok → Bool) (t : Tree) (k : Nat)
     (sp : Span) (k' : Nat) (all : List NodeInfo)
-    (hs : spanT ((dropSkipped skip toks).map Tok.span) t k = .ok (sp, k', all))
-    (hk : k' < ((dropSkipped skip toks).map Tok.span).length) :
-    k' = k + t.cnt ∧ Good ((dropSkipped skip toks).map Tok.span) ⟨k, k', sp⟩ ∧
-      ∀ n ∈ all, Good ((dropSkipped skip toks).map Tok.span) n := by
+    (hs : spanT ((toks.filter q).map Tok.span) t k = .ok (sp, k', all))
+    (hk : k' < ((toks.filter q).map Tok.span).length) :
+    k' = k + t.cnt ∧ Good ((toks.filter q).map Tok.span) ⟨k, k', sp⟩ ∧
+      ∀ n ∈ all, Good ((toks.filter q).map Tok.span) n := by
   rw [bases_std] at h
   obtain ⟨ts, p, rfl, hl, hne⟩ := tokenize_linked h
-  have := noEq_of_tokens hl hne (Pos.le_refl _) skip
+  have := noEq_of_tokens_filter hl hne (Pos.le_refl _) q
   exact spanT_spec _ t k sp k' all hs (this.mono (by omega))
 
 /-- A `LexicalError` names the line (1-based) and the column (0-based) of a character at which no
@@ -196,14 +197,14 @@ its first token to the last character of its last token (the empty string for a 
 nothing), for `str` and list-of-lines input. -/
 theorem node_orig_text (cfg : Cfg) (re : Re) (inp : Input) (toks : List Tok)
     (hre : ReIn re (tokLines ws inp)) (hne : tokLines ws inp ≠ [])
-    (h : tokenize B cfg re (tokLines ws inp) = .ok toks) (skip : List Nat) (t : Tree) (k : Nat)
+    (h : tokenize B cfg re (tokLines ws inp) = .ok toks) (q : Tok → Bool) (t : Tree) (k : Nat)
     (sp : Span) (k' : Nat) (all : List NodeInfo)
-    (hs : spanT ((dropSkipped skip toks).map Tok.span) t k = .ok (sp, k', all))
-    (hk : k' < ((dropSkipped skip toks).map Tok.span).length) :
+    (hs : spanT ((toks.filter q).map Tok.span) t k = .ok (sp, k', all))
+    (hk : k' < ((toks.filter q).map Tok.span).length) :
     ∀ n ∈ all, ∃ i a j b, n.span.s = ⟨1 + i, a + 1⟩ ∧ n.span.e = ⟨1 + j, b + 1⟩ ∧
       getOrigText B (origLines inp) n.span.s n.span.e =
         .ok (slice (flatText inp) (offset (origLines inp) i a) (offset (origLines inp) j b)) := by
-  have hgood := (node_span cfg re _ toks h skip t k sp k' all hs hk).2.2
+  have hgood := (node_span cfg re _ toks h q t k sp k' all hs hk).2.2
   obtain ⟨_, hw, hpw, _⟩ := tok_monotone cfg re _ toks h
   rw [bases_std] at h ⊢
   have hval := tokens_valid h hre hne
@@ -218,6 +219,83 @@ theorem node_orig_text (cfg : Cfg) (re : Re) (inp : Input) (toks : List Tok)
   · intro x hx
     obtain ⟨t, ht, rfl⟩ := List.mem_map.mp hx
     exact hw t (List.mem_filter.mp ht).1
+
+/-! ## composition with the LL parse model (C01): positions carried through the parse run -/
+
+/-- The positioned parse *is* the parse of the LL model: forgetting the positions, a tree returned by
+`runP` is the tree `LL.run` returns on the same tokens with the same fuel, and a `ParsingError` is a
+`ParsingError` (any grammar/table `G`, any tokens). -/
+theorem parse_is_ll_run {σ : Type} [DecidableEq σ] (G : LL.Cfg σ) (ptoks : List (PTok σ)) (fuel : Nat)
+    (init start endS : σ) :
+    (∀ t, runP G ptoks fuel none (initStackP init start endS) = .ok t →
+      LL.run G (ptoks.map PTok.erase) fuel (LL.initStack init start endS) = .ok t.erase) ∧
+    (∀ p, runP G ptoks fuel none (initStackP init start endS) = .error (.parsing p) →
+      LL.run G (ptoks.map PTok.erase) fuel (LL.initStack init start endS) = .error .parsingError) := by
+  have := runP_erase G ptoks fuel none (initStackP init start endS)
+  rw [erase_initStack] at this
+  exact this
+
+/-- Node spans of every tree the parse can return. For every text, tokenizer configuration and parser
+built by `LL.construct` (suffix symbols are not terminals, `$END$` is: `parserOk`, checked by the driver):
+if `parse` — tokenize, drop the skipped tokens, run the stack machine with all its roll-backs — returns a
+tree, then the spans the machine attached to the elements *while parsing* (an empty production is
+positioned at `tokens[cur_token_pos]` of its frame, whatever was tried and rolled back before) are exactly
+those of `node_span`: each node from the start of its first token to the end of its last, each node that
+matched nothing empty at the first token not consumed by the nodes before it. -/
+theorem parse_node_span (cfg : Cfg) (re : Re) (lines : List (List Char)) (toks : List Tok)
+    (h : tokenize B cfg re lines = .ok toks) (names : List (List Char)) (P : LL.Parser)
+    (hP : parserOk P = true) (fuel : Nat) (t : PTree LL.Sym)
+    (hrun : parseToks names cfg P toks fuel = some (.ok t)) :
+    ∃ k' all, spanT ((toks.filter (keepTok names cfg P.skip)).map Tok.span) t.shape 0 = .ok (t.span, k', all) ∧
+      all.map (·.span) = t.preorder ∧
+      ∀ n ∈ all, Good ((toks.filter (keepTok names cfg P.skip)).map Tok.span) n := by
+  unfold parseToks at hrun
+  split at hrun
+  · cases hrun
+  · rename_i ptoks hpt
+    simp only [Option.some.injEq] at hrun
+    obtain ⟨k', all, h1, h2, h3⟩ := runP_lay (parserOk_suffix hP) (parserOk_end hP) hrun
+    rw [ptoksOf_spans names cfg P.skip toks ptoks hpt] at h1 h3
+    exact ⟨k', all, h1, h2, (node_span cfg re lines toks h _ t.shape 0 t.span k' all h1 h3).2.2⟩
+
+/-- … and `get_orig_text` of every node of such a tree is the text from the first character of its
+first token to the last character of its last token. -/
+theorem parse_node_orig_text (cfg : Cfg) (re : Re) (inp : Input) (toks : List Tok)
+    (hre : ReIn re (tokLines ws inp)) (hne : tokLines ws inp ≠ [])
+    (h : tokenize B cfg re (tokLines ws inp) = .ok toks) (names : List (List Char)) (P : LL.Parser)
+    (hP : parserOk P = true) (fuel : Nat) (t : PTree LL.Sym)
+    (hrun : parseToks names cfg P toks fuel = some (.ok t)) :
+    ∀ sp ∈ t.preorder, ∃ i a j b, sp.s = ⟨1 + i, a + 1⟩ ∧ sp.e = ⟨1 + j, b + 1⟩ ∧
+      getOrigText B (origLines inp) sp.s sp.e =
+        .ok (slice (flatText inp) (offset (origLines inp) i a) (offset (origLines inp) j b)) := by
+  unfold parseToks at hrun
+  split at hrun
+  · cases hrun
+  · rename_i ptoks hpt
+    simp only [Option.some.injEq] at hrun
+    obtain ⟨k', all, h1, h2, h3⟩ := runP_lay (parserOk_suffix hP) (parserOk_end hP) hrun
+    rw [ptoksOf_spans names cfg P.skip toks ptoks hpt] at h1 h3
+    have := node_orig_text cfg re inp toks hre hne h _ t.shape 0 t.span k' all h1 h3
+    intro sp hsp
+    rw [← h2] at hsp
+    obtain ⟨n, hn, rfl⟩ := List.mem_map.mp hsp
+    exact this n hn
+
+/-- `ParsingError.src_pos` is the start position of one of the (non-skipped) tokens of the text: the first
+token of the frame that got farthest (`longest_stack`, carried by the model through every roll-back). -/
+theorem parse_error_pos (cfg : Cfg) (names : List (List Char)) (P : LL.Parser) (toks : List Tok)
+    (fuel : Nat) (p : Pos) (hrun : parseToks names cfg P toks fuel = some (.error (.parsing p))) :
+    ∃ t ∈ toks.filter (keepTok names cfg P.skip), p = t.s := by
+  unfold parseToks at hrun
+  split at hrun
+  · cases hrun
+  · rename_i ptoks hpt
+    simp only [Option.some.injEq] at hrun
+    obtain ⟨tk, htk, rfl⟩ := runP_fail_pos _ _ _ p hrun
+    have hm : tk.sp ∈ ptoks.map (·.sp) := List.mem_map.mpr ⟨tk, htk, rfl⟩
+    rw [ptoksOf_spans names cfg P.skip toks ptoks hpt] at hm
+    obtain ⟨t, ht, he⟩ := List.mem_map.mp hm
+    exact ⟨t, ht, by rw [← he]; rfl⟩
 
 /-- A `LexicalError` is raised exactly at the first character the scan reaches (outside a span) that
 no token pattern matches, naming its line (1-based) and column (0-based); the only other case is the
@@ -313,6 +391,24 @@ example : ∃ toks, tokenize B exCfg exRe (tokLines ws exInp) = .ok toks ∧
   rcases tok_orig_text exCfg exRe exInp toks ex_reIn h t ht with ⟨_, _, _, _, _, _, h1, _⟩ | ⟨_, _, _, _, _, _, _, h1⟩
   · exact ⟨_, h1⟩
   · exact ⟨_, h1⟩
+/-- the composed pipeline on a grammar that rolls back into an empty alternative:
+`E → LABEL WORD NUM`, `LABEL → WORD SEMI | ()`, text `␣␣␣foo 12`: `LABEL → WORD SEMI` consumes `foo`, fails at
+`12`, the roll-back selects the empty production, which is positioned at `foo` (1,4) — not at `12` -/
+def exCtor : LL.CtorIn :=
+  { groups := ["SPACE".toList, "WORD".toList, "NUM".toList, "SEMI".toList], syn := [], kw := [], skip := none,
+    start := "E".toList,
+    prods := [("E".toList, [["LABEL".toList, "WORD".toList, "NUM".toList]]),
+              ("LABEL".toList, [["WORD".toList, "SEMI".toList], []])],
+    smart := true }
+def exNames : List (List Char) := ["$END$".toList, "NUM".toList, "SEMI".toList, "SPACE".toList, "WORD".toList]
+def exToks2 : List Tok := [
+  ⟨3, some "   ".toList, ⟨1, 1⟩, ⟨1, 4⟩⟩, ⟨4, some "foo".toList, ⟨1, 4⟩, ⟨1, 7⟩⟩, ⟨3, some " ".toList, ⟨1, 7⟩, ⟨1, 8⟩⟩,
+  ⟨1, some "12".toList, ⟨1, 8⟩, ⟨1, 10⟩⟩, ⟨0, none, ⟨1, 10⟩, ⟨1, 10⟩⟩]
+example : (match LL.construct exCtor with
+    | .ok P => (parserOk P, (parseToks exNames ⟨[], [], [], 0⟩ P exToks2 100).map (·.map PTree.preorder))
+    | .error _ => (false, none)) =
+    (true, some (.ok [⟨⟨1, 4⟩, ⟨1, 10⟩⟩, ⟨⟨1, 4⟩, ⟨1, 4⟩⟩, ⟨⟨1, 4⟩, ⟨1, 7⟩⟩, ⟨⟨1, 8⟩, ⟨1, 10⟩⟩])) := by
+  decide +kernel
 example : ReAdv ⟨fun _ _ => none, fun _ _ _ => none⟩ := ⟨by simp, by simp⟩
 /-- a lexical error: `?` on line 2, column 3 (0-based) -/
 example : tokenize B ⟨[], [], [], 0⟩
